@@ -63,6 +63,12 @@ def writers_report(ctx):
 
 def extra(ctx):
     ctx.extra_coverage["c14_writers_rejected"] = writers_report(ctx)
+    # the strace parser is trusted: run its self-test (threads interleaved with unfinished/resumed lines, descriptor
+    # reuse before a close is reported finished, short write + EFBIG, forked child) on every run
+    rc, out = ctx.run(["python3", os.path.join(ctx.VERIF, "tools", "c14_straceparse.py"), "--selftest"], cwd=ctx.workdir, timeout=60)
+    ctx.extra_coverage["c14_parser_selftest"] = "ok" if rc == 0 else "FAILED"
+    if rc != 0:
+        ctx.fail("harness", "tools/c14_straceparse.py fails its self-test", detail=out[-2000:])
     per_pkg, traces, syscalls, smax = {}, 0, 0, 0
     for p in sorted(glob.glob(os.path.join(ctx.workdir, "h*_s*", "C14_*.dist.json"))):
         d = json.load(open(p))
